@@ -20,7 +20,11 @@ from refmodel import (Ledger, counted_keys, payload_hash, pgp_digest, refcanon, 
 from seams import (InjectedFault, LibCalls, LineTracer, Patcher, SimCrash, SimFS, load_library, exc_site)
 from world_envelope import GpgStub, KeyRing
 
-FORMATS = ["canon", "compact", "indent4", "unsorted", "utf8", "crlf", "bom", "utf16", "utf32", "padded", "tabs", "escaped", "indent8"]
+def _sim_fstat_note():
+    """os.fstat on simulated descriptors is answered by seams.SimFS.install_fd (same numbers as os.stat on the path)."""
+
+
+FORMATS = ["canon", "compact", "indent4", "unsorted", "utf8", "crlf", "bom", "utf16", "utf32", "padded", "tabs", "escaped", "indent8", "dupkeys"]
 
 
 def dump_as(doc, fmt):
@@ -49,6 +53,12 @@ def dump_as(doc, fmt):
             return json.dumps(doc, ensure_ascii=False).encode("utf-32")
     except UnicodeEncodeError:
         return json.dumps(doc, indent=2).encode("utf-16" if fmt == "utf16" else "utf-8")
+    if fmt == "dupkeys" and isinstance(doc, dict) and doc:
+        # a member name written twice in one object: the later one is the value (what every JSON parser of the ecosystem does)
+        body = json.dumps(doc, indent=2)
+        k0 = next(iter(doc))
+        decoy = json.dumps(k0) + ": " + json.dumps({"decoy": [1, "x"]} if not isinstance(doc[k0], dict) else "decoy")
+        return ("{\n  " + decoy + "," + body[1:]).encode("ascii")
     if fmt == "padded":
         return b"\n\n  " + json.dumps(doc, indent=2, sort_keys=True).encode("ascii") + b"  \n\n\t\n"
     if fmt == "tabs":
@@ -419,6 +429,21 @@ class StorageWorld(StorageBase):
         # make sure the library has seen the old content first
         self.calls.raw("load_metadata_from_file", path)
         t_before = int(self.fs.mtime.get(path, 0))
+        if op.get("keep_mtime"):
+            # not the library: another process puts the new content in place (same inode, same size) and carries the old
+            # modification time over to the nanosecond (cp -p, rsync -t, a downloader applying Last-Modified)
+            m = self.fs.mtime.get(path)
+            self.fs.files[path] = refcanon(new)
+            if m is not None:
+                self.fs.mtime[path] = m
+            self.run.fault("file_replaced_same_size_same_mtime")
+            self.model[path] = new
+            lo = self.calls.raw("load_metadata_from_file", path)
+            if not lo.ok or not typed_eq(lo.value, new) or refcanon(lo.value) != refcanon(new):
+                self.run.violate(self.history_tag(("C08", "C04", "C11"), lo, lambda: self.calls.raw("load_metadata_from_file", path)) if lo.ok else ("C08", "C04"),
+                                 "load-differs", "after the file was replaced by content of the same size with the same modification time, loading it returns "
+                                 "what the file held before", "load-differs")
+            return
         self.fs.tick = 0.0 if op.get("same_instant") else self.fs.tick
         w = self.calls.raw("write_metadata_to_file", copy.deepcopy(new), path)
         self.fs.tick = 0.3
@@ -827,7 +852,7 @@ class StorageWorld(StorageBase):
         try:
             cur = json.loads(got.decode("utf-8"))
         except (ValueError, UnicodeDecodeError, AttributeError):
-            self.run.violate(("C11",), "repodata-unparsable", "signed repodata file does not parse", "repodata-unparsable")
+            self.run.violate(("C11", "C08"), "repodata-unparsable", "signed repodata file does not parse", "repodata-unparsable")
             return
         if got != refcanon(cur):
             self.run.violate(("C11", "C07"), "repodata-not-canonical", "signed repodata file is not canonical JSON", "repodata-not-canonical")
@@ -896,7 +921,9 @@ class StorageWorld(StorageBase):
             if not o.ok:
                 # independent check before raising the alarm: is the stored signature really valid?
                 good = rfc8032.verify(bytes.fromhex(pub), refcanon(rec), bytes.fromhex(cur["signatures"][nm][pub]["signature"]))
-                self.run.violate(("C11", "C02"), "client-rejects-artifact",
+                # a stored signature that is not over the reference bytes of the record as it stands was made over other bytes (C07, C09),
+                # and the file no longer gives the verdicts its in-memory content would (C08)
+                self.run.violate(("C11", "C02") if good else ("C11", "C07", "C08", "C09"), "client-rejects-artifact",
                                  "client-side verify_delegation('pkg_mgr') raised %s for artifact %r; independent RFC 8032 check of the "
                                  "stored signature over the record's reference bytes: %s" % (o.cls, nm, "valid" if good else "INVALID"),
                                  "client-rejects-artifact:" + ("valid" if good else "invalid"))
@@ -948,6 +975,17 @@ class StorageWorld(StorageBase):
             elif kind == "edit" and sec:
                 nm = sorted(sec)[op.get("idx", 0) % len(sec)]
                 sec[nm] = op["rec"]
+            elif kind == "hotfix" and sec:
+                # a repodata patch: same artifact (name, sha256, md5, size), another dependency list / subdir / timestamp
+                nm = sorted(sec)[op.get("idx", 0) % len(sec)]
+                if not isinstance(sec[nm], dict):
+                    return self.run.ev("noop")
+                rec = dict(sec[nm])
+                rec["depends"] = list(rec.get("depends", [])) + ["hotfix >=%d" % op.get("idx", 0)] if isinstance(rec.get("depends", []), list) else ["hotfix"]
+                rec["subdir"] = "noarch" if rec.get("subdir") != "noarch" else "linux-64"
+                sec[nm] = rec
+            elif kind == "respell_only":
+                pass            # nothing changes but the bytes on disk (another tool re-saved the signed file)
             elif kind == "stale":
                 doc.setdefault("signatures", {})[op["name"]] = {"%064x" % 7: {"signature": "%0128x" % 9}}
         except (AttributeError, TypeError):
@@ -957,6 +995,8 @@ class StorageWorld(StorageBase):
         if isinstance(a, dict) and isinstance(b, dict) and set(a) & set(b):
             return self.run.ev("noop")
         self.fs.put(path, dump_as(doc, op.get("fmt", "canon")))
+        if op.get("keep_mtime_of") is not None and path in self.fs.mtime:
+            self.fs.mtime[path] = op["keep_mtime_of"]
         self.repo_state[path] = {"orig": doc, "signer": None}
         self.run.probe("repodata_edited_" + kind)
 
@@ -976,8 +1016,11 @@ class StorageWorld(StorageBase):
             f = rng.choice(rfiles)
             if f not in self.repo_state or r < 0.12:
                 op = {"op": "repodata", "file": f, "doc": gen_repodata(rng, nonf), "fmt": rng.choice(FORMATS)}
-                if rng.random() < 0.025:
+                blocks = gen.harvested(512, 32 << 20, around=False)
+                if rng.random() < (0.025 if not blocks else 0.05):
                     op["pad_to"] = rng.choice([512, 4096, 4096, 8192, 65536, 65536, 1 << 20, 1 << 22, 1 << 22])
+                    if blocks and rng.random() < 0.6:
+                        op["pad_to"] = rng.choice(blocks)         # a block / slice / buffer size the code under test itself names
                     op["blocks"] = rng.choice([0, 0, 1]) if op["pad_to"] < (1 << 22) else 0
                     op["fmt"] = "canon"
                     op["doc"].pop("signatures", None)
@@ -990,7 +1033,7 @@ class StorageWorld(StorageBase):
                     op["fault"] = fault
                 return op
             if r < 0.9:
-                kind = rng.choice(["add", "remove", "edit", "stale"])
+                kind = rng.choice(["add", "remove", "edit", "stale", "hotfix", "hotfix", "respell_only"])
                 sec = rng.choice(["packages", "packages.conda"])
                 ext = ".tar.bz2" if sec == "packages" else ".conda"
                 return {"op": "edit_repo", "file": f, "kind": kind, "sec": sec, "idx": rng.randint(0, 5),
@@ -1024,7 +1067,7 @@ class StorageWorld(StorageBase):
         if r < 0.64:
             return {"op": "load_edit_discard", "file": f}
         if r < 0.68:
-            return {"op": "rewrite_same_size", "file": f, "pick": rng.randint(0, 20), "same_instant": rng.random() < 0.5}
+            return {"op": "rewrite_same_size", "file": f, "pick": rng.randint(0, 20), "same_instant": rng.random() < 0.5, "keep_mtime": rng.random() < 0.4}
         if r < 0.70:
             return {"op": "write_twin", "file": f, "value": {"signatures": {}, "signed": gen.gen_payload(rng, nonf) if rng.random() < 0.5 else {"k": 1}},
                     "a": rng.randint(2, 99), "b": rng.randint(2, 99)}
